@@ -88,8 +88,8 @@ func targets() []*tgt {
 		ocb:    func() interface{} { return func(a int) int { return phl2(a) | marker } },
 		ph:     &phl2, phAddr: vmon.FuncCodePtr(phl2), refusesOrigin: true})
 	// function literals held in package variables
-	lits := []func(int) int{Lit0, Lit1}
-	phls := []*func(int) int{&phl0, &phl1}
+	lits := []func(int) int{Lit0, Lit1, Lit2}
+	phls := []*func(int) int{&phl0, &phl1, &phl3}
 	for k := range lits {
 		f, ph, k := lits[k], phls[k], k
 		ts = append(ts, &tgt{name: fmt.Sprintf("literal%d", k), entry: vmon.FuncCodePtr(f), call: f, orig: func(a int) int { return a*17 + 600 + k + 1 },
@@ -151,6 +151,8 @@ func neighbours() []neighbour {
 		ns = append(ns, neighbour{fmt.Sprintf("N%d", k), f, func(a int) int { return a ^ (0x100 + k) }})
 	}
 	ns = append(ns, neighbour{"LitHelper", LitHelper, func(a int) int { return a*17 + 600 }})
+	ns = append(ns, neighbour{"LitGen[int]", func(a int) int { return LitGen[int](a, a) }, func(a int) int { return a*17 + 600 }})
+	ns = append(ns, neighbour{"LitGen[string]", func(a int) int { return LitGen[string]("s", a) }, func(a int) int { return a*17 + 600 }})
 	for _, k := range []int{0, 2, 4} {
 		k := k
 		m := map[int]func(*CT, int) int{0: (*CT).NM0, 2: (*CT).NM2, 4: (*CT).NM4}[k]
